@@ -655,7 +655,24 @@ def autofission_loop_carried_dependency(r):
     gap = args[0]._impl
     sibs, k = _block_and_index(gap._anchor)
     cut = k if gap._type.name == "Before" else k + 1
-    pre, post = sibs[:cut], sibs[cut:]
+    pre, post = list(sibs[:cut]), list(sibs[cut:])
+    # with n_lifts > 1 the split is carried outwards: what precedes / follows the enclosing statements, up to
+    # the outermost fissioned loop, ends up on either side as well
+    try:
+        n_lifts = int(args[1]) if len(args) > 1 and not isinstance(args[1], bool) else 1
+    except Exception:
+        n_lifts = 1
+    cur = gap._anchor.parent()
+    crossed = 0
+    while crossed < n_lifts and len(cur._path) > 0:
+        if isinstance(cur._node, LoopIR.For):
+            crossed += 1
+            if crossed >= n_lifts:
+                break
+        sibs2, k2 = _block_and_index(cur)
+        pre = list(sibs2[:k2]) + pre
+        post = post + list(sibs2[k2 + 1 :])
+        cur = cur.parent()
     local = {s.name for s in pre if isinstance(s, LoopIR.Alloc)}
     w_pre = set()
     for s in pre:
@@ -953,3 +970,16 @@ def reuse_buffer_out_of_scope(r):
     pb = [tuple(x) for x in b._path[:-1]]
     # a's enclosing block must be b's enclosing block or one of its ancestors
     return pb[: len(pa)] != pa
+
+
+def rewrite_expr_after_zero_trip_loop(r):
+    """Check_ExprEqvInContext accepts unequal expressions (the literal 7 -> 2 in a call argument) for a statement
+    that comes after a loop with equal literal bounds (`for i in seq(0, 0)`, as cut_loop(..., 0) leaves behind)
+    whose body reads and writes configuration state"""
+    if r.get("op") != "rewrite_expr" or r.get("kind") != "semantics":
+        return False
+    p, op, args, env = _ctx(r)
+    for st in _all_stmts(p._loopir_proc.body):
+        if isinstance(st, LoopIR.For) and isinstance(st.lo, LoopIR.Const) and isinstance(st.hi, LoopIR.Const) and st.lo.val == st.hi.val:
+            return True
+    return False
